@@ -288,6 +288,26 @@ func ruleWireFor(w *World, r *RuleResult) {
 			for i := range p.Events {
 				e := &p.Events[i]
 				if v, ok := sendOf(w, e); ok && v.Op == "struct" {
+					// a reference to a block label: the mangled name replaces a body token only under an exact
+					// comparison of that token's text with the label
+					if val := structField(v, "val"); val != nil && val.Op == "call" && val.S == "fmt.Sprintf" && len(val.A) > 0 && val.A[0].Op == "str" && strings.Contains(val.A[0].S, "__for") {
+						fromContent := false
+						for _, cd := range p.Conds {
+							if cd.Atom.contains(func(x *T) bool { return x.Op == "elem" && strings.Contains(stripConv(x.A[0]).Show(), "forContent") }) {
+								fromContent = true
+							}
+						}
+						if fromContent {
+							exact := hasCond(p, func(a *T, vv bool) bool {
+								return a.Op == "eq" && vv && a.A[0].Op != "str" && a.A[1].Op != "str" &&
+									(strings.Contains(a.A[0].Show(), "forLineLabels") || strings.Contains(a.A[1].Show(), "forLineLabels")) &&
+									(strings.Contains(a.A[0].Show(), "forContent") || strings.Contains(a.A[1].Show(), "forContent"))
+							}) || hasCond(p, func(a *T, vv bool) bool {
+								return a.Op == "lt" && !vv && a.A[0].Op == "call" && strings.HasPrefix(a.A[0].S, "slices.Index") // j := slices.Index(labels, tok.val); j >= 0
+							})
+							d.add(exact, "label/exact-name", w.Pos(instrPosE(e)), "a body token is replaced by the mangled label only when its text equals the label exactly", "a body token is replaced by a mangled block label without an exact comparison of its text with the label (symbols are case sensitive)")
+						}
+					}
 					// the counter token: number formatted from the repeat counter under tok.val == forCountLabel
 					val := structField(v, "val")
 					if val != nil && val.Op == "call" && val.S == "fmt.Sprintf" {
@@ -302,6 +322,9 @@ func ruleWireFor(w *World, r *RuleResult) {
 							})
 							if underLabel {
 								d.add(x.Op == "loopvar", "counter/value", w.Pos(instrPosE(e)), "the counter name is replaced by the repeat counter", "the counter name is replaced by "+x.Show()+", not the current repeat counter")
+							} else if x.Op == "loopvar" && structField(v, "typ") != nil && structField(v, "typ").IsConst() {
+								// a number made from the repeat counter is emitted, but not under "this token is exactly the counter name"
+								d.add(false, "counter/exact-name", w.Pos(instrPosE(e)), "", "the repeat counter is substituted for a token without an exact comparison of its text with the counter name (symbols are case sensitive: a name differing only by case would be replaced too)")
 							}
 						}
 					}
